@@ -56,7 +56,10 @@ import (
 	registry "github.com/oasisprotocol/oasis-core/go/registry/api"
 	roothashState "github.com/oasisprotocol/oasis-core/go/consensus/cometbft/apps/roothash/state"
 	roothash "github.com/oasisprotocol/oasis-core/go/roothash/api"
+	"github.com/oasisprotocol/oasis-core/go/common/crypto/hash"
+	"github.com/oasisprotocol/oasis-core/go/roothash/api/block"
 	"github.com/oasisprotocol/oasis-core/go/roothash/api/commitment"
+	"github.com/oasisprotocol/oasis-core/go/roothash/api/message"
 	scheduler "github.com/oasisprotocol/oasis-core/go/scheduler/api"
 	staking "github.com/oasisprotocol/oasis-core/go/staking/api"
 	upgrade "github.com/oasisprotocol/oasis-core/go/upgrade/api"
@@ -118,6 +121,7 @@ func buildScenario(seed uint64, n int) (*scen, error) {
 	opts.Mutate = func(doc *genesis.Document) {
 		// runtimes without a committee get suspended at the epoch transition
 		doc.RootHash.Parameters.DebugDoNotSuspendRuntimes = false
+		doc.RootHash.Parameters.MaxEvidenceAge = 20
 		doc.RootHash.Parameters.GasCosts = transaction.Costs{roothash.GasOpSubmitMsg: 1500, roothash.GasOpComputeCommit: 1800, roothash.GasOpEvidence: 1900}
 		if seed%2 == 1 {
 			// every other history runs with a non-zero minimum transacting balance, which arms the
@@ -253,6 +257,24 @@ func buildScenario(seed uint64, n int) (*scen, error) {
 			txs = append(txs, sign(v[0].Entity, func(n uint64) *transaction.Transaction {
 				return muxdrv.TxCastVote(n, fee(), 1, governance.VoteYes)
 			}))
+		case rtFillH + 1:
+			// a valid executor commitment of the (only) worker: the round finalizes in EndBlock
+			if st := s.rtStateAt(0, s.rt1); st != nil && st.Committee != nil {
+				ec := mkCommit(s.rt1, st.LastBlock, s.cnode.Node.Public(), s.cnode.Node, 0, 0, false)
+				txs = append(txs, sign(acc[1].Key, func(n uint64) *transaction.Transaction {
+					return roothash.NewExecutorCommitTx(n, muxdrv.Fee(uint64(rng.Intn(60)), 4*muxdrv.DefaultGas), s.rt1, []commitment.ExecutorCommitment{ec})
+				}))
+			}
+		case rtFillH + 2:
+			// valid equivocation evidence against the worker (slashes its entity)
+			if st := s.rtStateAt(0, s.rt1); st != nil && st.Committee != nil {
+				a := mkCommit(s.rt1, st.LastBlock, s.cnode.Node.Public(), s.cnode.Node, 1, 0, false)
+				b := mkCommit(s.rt1, st.LastBlock, s.cnode.Node.Public(), s.cnode.Node, 2, 0, false)
+				txs = append(txs, sign(acc[1].Key, func(n uint64) *transaction.Transaction {
+					return roothash.NewEvidenceTx(n, muxdrv.Fee(uint64(rng.Intn(60)), 4*muxdrv.DefaultGas), &roothash.Evidence{ID: s.rt1,
+						EquivocationExecutor: &roothash.EquivocationExecutorEvidence{CommitA: a, CommitB: b}})
+				}))
+			}
 		case rtFillH:
 			for i := 0; i < 2; i++ {
 				// (signed by a companion signer: the failing transactions' signers never sign in a twin block)
@@ -319,7 +341,15 @@ func (s *scen) runtimeDesc(id common.Namespace, ent signature.PublicKey) *regist
 			},
 		},
 		GovernanceModel: registry.GovernanceEntity,
-		Staking:         registry.RuntimeStakingParameters{MinInMessageFee: mustQ(100)},
+		Staking: registry.RuntimeStakingParameters{
+			MinInMessageFee: mustQ(100),
+			Slashing: map[staking.SlashReason]staking.Slash{
+				staking.SlashRuntimeIncorrectResults: {Amount: mustQ(100)},
+				staking.SlashRuntimeEquivocation:     {Amount: mustQ(100)},
+			},
+			RewardSlashEquvocationRuntimePercent: 30,
+			RewardSlashBadResultsRuntimePercent:  40,
+		},
 		Deployments:     []*registry.VersionInfo{{}},
 	}
 	rt.Genesis.StateRoot.Empty()
@@ -343,6 +373,53 @@ func (s *scen) rtInfo(h int, id common.Namespace) string {
 		q = int(meta.Size)
 	}
 	return fmt.Sprintf("suspended=%v committee=%v pool=%v queue=%d round=%d", st.Suspended, st.Committee != nil, st.CommitmentPool != nil, q, st.LastBlock.Header.Round)
+}
+
+// rtStateAt reads the roothash state of a runtime on B at a height (0 = latest).
+func (s *scen) rtStateAt(h int, id common.Namespace) *roothash.RuntimeState {
+	tree, cl, err := s.B.TreeAt(int64(h))
+	if err != nil {
+		return nil
+	}
+	defer cl()
+	st, err := roothashState.NewImmutableState(tree).RuntimeState(context.Background(), id)
+	if err != nil {
+		return nil
+	}
+	return st
+}
+
+// mkCommit builds a signed executor commitment of node key n for the round after blk (the
+// construction of harness/cmd/nohalt/roothash.go). variant selects the (arbitrary, non-TEE)
+// result roots.
+func mkCommit(rt common.Namespace, blk *block.Block, sched signature.PublicKey, n *muxdrv.Key, variant int, roundDelta int64, badPrev bool) commitment.ExecutorCommitment {
+	nb := block.NewEmptyBlock(blk, 1, block.Normal)
+	msgs := message.MessagesHash(nil)
+	var empty hash.Hash
+	empty.Empty()
+	io := hash.NewFromBytes([]byte(fmt.Sprintf("io/%d/%d", nb.Header.Round, variant)))
+	sr := hash.NewFromBytes([]byte(fmt.Sprintf("state/%d/%d", nb.Header.Round, variant)))
+	ec := commitment.ExecutorCommitment{
+		NodeID: n.Public(),
+		Header: commitment.ExecutorCommitmentHeader{
+			SchedulerID: sched,
+			Header: commitment.ComputeResultsHeader{
+				Round:        uint64(int64(nb.Header.Round) + roundDelta),
+				PreviousHash: nb.Header.PreviousHash,
+			},
+		},
+	}
+	if badPrev {
+		ec.Header.Header.PreviousHash = hash.NewFromBytes([]byte("not the previous block"))
+	}
+	ec.Header.Header.IORoot = &io
+	ec.Header.Header.StateRoot = &sr
+	ec.Header.Header.MessagesHash = &msgs
+	ec.Header.Header.InMessagesHash = &empty
+	if err := ec.Sign(n.Signer, rt); err != nil {
+		panic(err)
+	}
+	return ec
 }
 
 // replicaAt boots a fresh replica and replays B's blocks 1..h-1.
@@ -1144,6 +1221,94 @@ func (c *gctx) execFailing() built {
 				return vault.NewCreateTx(n, f, &vault.Create{})
 			})
 		},
+	}
+	commitGen := func(kind int) gen {
+		return func() built {
+			// batches of executor commitments: an earlier commitment of the batch is accepted into
+			// the pool, a later one is refused: the batch must be all-or-nothing
+			st := s.rtStateAt(c.h-1, s.rt1)
+			if st == nil || st.Committee == nil {
+				b := mk("roothash/commit-runtime-not-active", c.plain(), func(n uint64, f *transaction.Fee) *transaction.Transaction {
+					return roothash.NewExecutorCommitTx(n, f, s.rt1, []commitment.ExecutorCommitment{{NodeID: s.cnode.Node.Public()}})
+				})
+				b.minH = rtActiveH + 1
+				return b
+			}
+			sched := s.cnode.Node.Public()
+			good := mkCommit(s.rt1, st.LastBlock, sched, s.cnode.Node, 0, 0, false)
+			label := []string{"batch-second-bad-signature", "batch-second-wrong-round", "batch-duplicate", "batch-second-non-member", "stale-round", "bad-previous-hash", "batch-second-other-scheduler"}[kind]
+			var cs []commitment.ExecutorCommitment
+			switch kind {
+			case 0:
+				bad := mkCommit(s.rt1, st.LastBlock, sched, s.cnode.Node, 1, 0, false)
+				bad.Signature[3] ^= 0x40
+				cs = []commitment.ExecutorCommitment{good, bad}
+			case 1:
+				cs = []commitment.ExecutorCommitment{good, mkCommit(s.rt1, st.LastBlock, sched, s.cnode.Node, 0, 1+int64(r.Intn(3)), false)}
+			case 2:
+				cs = []commitment.ExecutorCommitment{good, good}
+			case 3:
+				cs = []commitment.ExecutorCommitment{good, mkCommit(s.rt1, st.LastBlock, sched, s.fresh2.Node, 0, 0, false)}
+			case 4:
+				cs = []commitment.ExecutorCommitment{mkCommit(s.rt1, st.LastBlock, sched, s.cnode.Node, 0, -1, false)}
+			case 5:
+				cs = []commitment.ExecutorCommitment{mkCommit(s.rt1, st.LastBlock, sched, s.cnode.Node, 0, 0, true)}
+			default:
+				cs = []commitment.ExecutorCommitment{good, mkCommit(s.rt1, st.LastBlock, s.fresh2.Node.Public(), s.cnode.Node, 1, 0, false)}
+			}
+			b := inTx(mk("roothash/commit-"+label, c.plain(), func(n uint64, f *transaction.Fee) *transaction.Transaction {
+				f.Gas = 4 * muxdrv.DefaultGas
+				return roothash.NewExecutorCommitTx(n, f, s.rt1, cs)
+			}))
+			b.minH = rtActiveH + 1
+			return b
+		}
+	}
+	evidGen := func(kind int) gen {
+		return func() built {
+			st := s.rtStateAt(c.h-1, s.rt1)
+			var blk *block.Block
+			if st != nil {
+				blk = st.LastBlock
+			} else {
+				blk = block.NewGenesisBlock(s.rt1, 0)
+			}
+			label := []string{"unregistered-node", "equal-commits", "duplicate", "different-rounds"}[kind]
+			signerKey := s.nobody // a key that is no registered node: "fake but valid" evidence
+			if kind == 2 {
+				signerKey = s.cnode.Node
+			}
+			a := mkCommit(s.rt1, blk, s.cnode.Node.Public(), signerKey, 1, 0, false)
+			bb := mkCommit(s.rt1, blk, s.cnode.Node.Public(), signerKey, 2, 0, false)
+			switch kind {
+			case 1:
+				bb = a
+			case 2:
+				// exactly the evidence of the setup block (accepted there): its round is the one
+				// after the block that was last at rtFillH+1
+				if st2 := s.rtStateAt(rtFillH+1, s.rt1); st2 != nil {
+					a = mkCommit(s.rt1, st2.LastBlock, s.cnode.Node.Public(), s.cnode.Node, 1, 0, false)
+					bb = mkCommit(s.rt1, st2.LastBlock, s.cnode.Node.Public(), s.cnode.Node, 2, 0, false)
+				}
+			case 3:
+				bb = mkCommit(s.rt1, blk, s.cnode.Node.Public(), signerKey, 2, 1, false)
+			}
+			b := mk("roothash/evidence-"+label, c.plain(), func(n uint64, f *transaction.Fee) *transaction.Transaction {
+				f.Gas = 4 * muxdrv.DefaultGas
+				return roothash.NewEvidenceTx(n, f, &roothash.Evidence{ID: s.rt1, EquivocationExecutor: &roothash.EquivocationExecutorEvidence{CommitA: a, CommitB: bb}})
+			})
+			b.minH = rtActiveH + 1
+			if kind == 2 {
+				b.minH = rtFillH + 3
+			}
+			return b
+		}
+	}
+	for k := 0; k < 7; k++ {
+		gens = append(gens, commitGen(k))
+	}
+	for k := 0; k < 4; k++ {
+		gens = append(gens, evidGen(k))
 	}
 	// Only in histories with MinTransactBalance > 0: the balance left behind is below the minimum
 	// (checked by the handlers AFTER the in-memory move, before the writes).
